@@ -15,6 +15,8 @@ Topics
             try_new timeout; libs/testing/src/odk.rs try_new timeout;
             libs/serial/src/serial_port.rs configure_port setters
   VSign     libs/testing/src/virtual_sign_bus.rs  dispatch and per-handler state tables
+  Controller  src/sign.rs   every protocol method of `impl Sign`, compiled statement by statement into an
+            interaction tree (translate_ctrl.py)
 
 usage: translate.py [REPO] [OUTDIR]      (defaults /repo, <here>/lean/Flipdot/Generated)
 prints a JSON status object {topic: {"status": "generated"|"unavailable", "reason": ..., "sha256": ...}}
@@ -841,7 +843,13 @@ def gen_vsign(repo):
     return [path], "\n".join(out) + "\n"
 
 
+def gen_controller(repo):
+    import translate_ctrl
+    return translate_ctrl.gen_controller(repo)
+
+
 TOPICS = {
+    "Controller": (gen_controller, ["Flipdot.Tie.CtrlSupport"], "Flipdot.Generated.Controller"),
     "Message": (gen_message, ["Flipdot.Tie.Kind"], "Flipdot.Generated.Message"),
     "SignType": (gen_signtype, ["Flipdot.Model.SignType"], "Flipdot.Generated.SignType"),
     "Serial": (gen_serial, ["Flipdot.Tie.Kind"], "Flipdot.Generated.Serial"),
@@ -868,7 +876,7 @@ def translate(repo, outdir, topics=None):
             status[topic] = {"status": "generated", "files": files, "sha256": sha, "changed": old != text}
             if getattr(gen, "notes", None):
                 status[topic]["notes"] = gen.notes
-        except (TranslateError, OSError, AssertionError, IndexError) as e:
+        except (TranslateError, OSError, AssertionError, IndexError, TypeError, ValueError, KeyError) as e:
             status[topic] = {"status": "unavailable", "reason": str(e)}
     return status
 
